@@ -266,11 +266,12 @@ func (interp *Interpreter) cfg(root *node, sc *scope, importPath, pkgName string
 					lv.gen = loopVarVal
 				}
 			}
-			if n.anc != nil && n.anc.kind == forStmt7 {
-				lv := n.child[0]
-				init := n.anc.child[0]
-				if init.kind == defineStmt && len(init.child) >= 2 && init.child[0].kind == identExpr {
-					fi := init.child[0]
+			if n.anc != nil {
+				for i, fi := range forInitVars(n.anc) {
+					if fi.ident == "_" {
+						continue
+					}
+					lv := n.child[i]
 					lv.ident = fi.ident
 					lv.typ = fi.typ
 					vindex := sc.add(lv.typ)
@@ -754,16 +755,16 @@ func (interp *Interpreter) cfg(root *node, sc *scope, importPath, pkgName string
 					// A blank destination never denotes an existing variable: it always gets
 					// a fresh frame location, with the type of its own source.
 					if dest.ident != "_" && (sc.global && isGlobalDefine(n) || sc.isRedeclared(dest)) {
-						if n.anc != nil && n.anc.anc != nil && (n.anc.anc.kind == forStmt7 || n.anc.anc.kind == rangeStmt) {
+						if n.anc != nil && n.anc.anc != nil && (len(forInitVars(n.anc.anc)) > 0 || n.anc.anc.kind == rangeStmt) {
 							// check for redefine of for loop variables, which are now auto-defined in go1.22
-							init := n.anc.anc.child[0]
 							var fi *node // for ident
-							if n.anc.anc.kind == forStmt7 {
-								if init.kind == defineStmt && len(init.child) >= 2 && init.child[0].kind == identExpr {
-									fi = init.child[0]
+							if n.anc.anc.kind == rangeStmt {
+								fi = n.anc.anc.child[0]
+							}
+							for _, v := range forInitVars(n.anc.anc) {
+								if v.ident == dest.ident {
+									fi = v
 								}
-							} else { // range
-								fi = init
 							}
 							if fi != nil && dest.ident == fi.ident {
 								n.gen = nop
@@ -1556,9 +1557,10 @@ func (interp *Interpreter) cfg(root *node, sc *scope, importPath, pkgName string
 
 		case forStmt1: // for init; ; {}
 			init, body := n.child[0], n.child[1]
+			loopVarBody(n, body)
 			n.start = init.start
 			init.tnext = body.start
-			body.tnext = n.start
+			body.tnext = body.start
 			sc = sc.pop()
 
 		case forStmt2: // for cond {}
@@ -1587,6 +1589,7 @@ func (interp *Interpreter) cfg(root *node, sc *scope, importPath, pkgName string
 				err = cond.cfgErrorf("non-bool used as for condition")
 				break
 			}
+			loopVarBody(n, body)
 			n.start = init.start
 			if cond.rval.IsValid() {
 				// Condition is known at compile time, bypass test.
@@ -1634,6 +1637,7 @@ func (interp *Interpreter) cfg(root *node, sc *scope, importPath, pkgName string
 
 		case forStmt6: // for init; ; post {}
 			init, post, body := n.child[0], n.child[1], n.child[2]
+			loopVarBody(n, body)
 			n.start = init.start
 			init.tnext = body.start
 			body.tnext = post.start
@@ -1646,11 +1650,8 @@ func (interp *Interpreter) cfg(root *node, sc *scope, importPath, pkgName string
 				err = cond.cfgErrorf("non-bool used as for condition")
 				break
 			}
+			loopVarBody(n, body)
 			n.start = init.start
-			body.start = body.child[0] // loopvar
-			if len(body.child) == 1 {
-				body.child[0].tnext = body // empty body
-			}
 			if cond.rval.IsValid() {
 				// Condition is known at compile time, bypass test.
 				if cond.rval.Bool() {
@@ -1666,11 +1667,6 @@ func (interp *Interpreter) cfg(root *node, sc *scope, importPath, pkgName string
 			cond.tnext = body.start
 			setFNext(cond, n)
 			body.tnext = post.start
-			if body.child[0].ident != "_" {
-				// The body works on a per-iteration copy of the loop variable: carry
-				// its value to the next iteration before the post statement.
-				body.gen = loopVarForNext
-			}
 			sc = sc.pop()
 
 		case forRangeStmt:
@@ -2547,6 +2543,35 @@ func compDefineX(sc *scope, n *node) error {
 //	}
 //	return false
 // }
+
+// forInitVars returns the variables declared by the init clause of for statement n.
+func forInitVars(n *node) []*node {
+	switch n.kind {
+	case forStmt1, forStmt3, forStmt6, forStmt7:
+		switch init := n.child[0]; init.kind {
+		case defineStmt:
+			return init.child[:init.nleft]
+		case defineXStmt:
+			return init.child[:len(init.child)-1]
+		}
+	}
+	return nil
+}
+
+// loopVarBody sets the body of for statement n to work on per-iteration copies of the
+// variables declared by the init clause: they are created by the leading nodes of the
+// body, and their values are carried to the next iteration at the end of the body.
+func loopVarBody(n, body *node) {
+	nv := len(forInitVars(n))
+	if nv == 0 {
+		return
+	}
+	body.start = body.child[0]
+	if len(body.child) == nv {
+		body.child[nv-1].tnext = body // empty body
+	}
+	body.gen = loopVarForNext
+}
 
 func childPos(n *node) int {
 	for i, c := range n.anc.child {
